@@ -175,6 +175,12 @@ bool linepart::array::apply(const transform &tr, int dim, span<const double> src
 					old = base[pos];
 				}
 			}
+			// leading and trailing line on a single segment leave nothing visible
+			if (pt.usr == 2 && pt._cut && pt._trim
+			    && (pt._cut + pt._trim) >= std::numeric_limits<__decltype(pt._cut)>::max()) {
+				pt.usr = 0;
+				pt._cut = pt._trim = 0;
+			}
 			len -= pt.raw;
 			val += pt.raw;
 		}
